@@ -227,6 +227,75 @@ pub fn awkward_unary(which: usize, second: bool, prop: &str, case: Value, idx: u
     }
 }
 
+/// real powers with unusual exponents: whole exponents beyond the 32-bit range at bases next to +-1 (the result is an
+/// ordinary number), large odd exponents at negative bases, ordinary fractional and negative exponents
+pub const POWERS: [(f64, f64); 12] = [
+    (-1.0, 4294967297.0),
+    (-1.0, 2147483648.0),
+    (1.0 + 9.313225746154785e-10, 4294967296.0),
+    (1.0 + 2.3283064365386963e-10, 6.0e9),
+    (0.999999999, 3.0e9),
+    (1.0000001, 2147483649.0),
+    (2.5, 7.0),
+    (0.5, 31.0),
+    (-1.5, 5.0),
+    (1.7, -3.0),
+    (3.25, 2.5),
+    (1.0e-3, 100.0),
+];
+
+pub fn awkward_power(which: usize, second: bool, prop: &str, case: Value, idx: u64, acc: &mut Acc) {
+    let (x, p) = POWERS[which];
+    let uni: Vec<String> = vec!["a".into(), "b".into()];
+    let g = [1.0_f64, 2.5];
+    let hh = [[0.5_f64, 0.25], [0.25, 0.0]];
+    let (f0, f1, f2) = (x.powf(p), p * x.powf(p - 1.0), p * (p - 1.0) * x.powf(p - 2.0));
+    let judged = |w: f64| w.is_finite() && (w == 0.0 || w.abs() > 1e-290);
+    // the value of a power with an exponent of 1e9 carries a relative rounding of about p * 1e-16 whatever the route
+    let tol = (p.abs() * 4e-16).max(1e-12);
+    acc.nontrivial();
+    for own in [false, true] {
+        acc.eval();
+        if !second {
+            let x1 = Dual::try_new(x, uni.clone(), g.to_vec()).unwrap();
+            let r: Dual = if own { x1.clone().pow(p) } else { (&x1).pow(p) };
+            let gr = r.gradient1(uni.clone());
+            let mut bad = judged(f0) && !close_scaled(r.real(), f0, tol, f0.abs());
+            for i in 0..2 {
+                let w = f1 * g[i];
+                if judged(w) && !close_scaled(gr[i], w, tol * 10.0, w.abs()) {
+                    bad = true;
+                }
+            }
+            if bad {
+                acc.violate(&format!("{}/awkward-power", prop), idx, case.clone(), json!({"x": x, "p": p, "want": [f0, f1 * g[0], f1 * g[1]]}), json!(format!("{:?}", r)));
+            }
+        } else {
+            let x2 = Dual2::try_new(x, uni.clone(), g.to_vec(), vec![0.5 * hh[0][0], 0.5 * hh[0][1], 0.5 * hh[1][0], 0.5 * hh[1][1]]).unwrap();
+            let r: Dual2 = if own { x2.clone().pow(p) } else { (&x2).pow(p) };
+            let gr = r.gradient1(uni.clone());
+            let hr = r.gradient2(uni.clone());
+            let mut bad = judged(f0) && !close_scaled(r.real(), f0, tol, f0.abs());
+            for i in 0..2 {
+                let w = f1 * g[i];
+                if judged(w) && !close_scaled(gr[i], w, tol * 10.0, w.abs()) {
+                    bad = true;
+                }
+                for j in 0..2 {
+                    let (t1, t2) = (f1 * hh[i][j], f2 * g[i] * g[j]);
+                    let w = t1 + t2;
+                    if judged(t1) && judged(t2) && judged(w) && w.abs() > 1e-3 * (t1.abs() + t2.abs()) && !close_scaled(hr[[i, j]], w, tol * 100.0, t1.abs() + t2.abs()) {
+                        bad = true;
+                    }
+                }
+            }
+            if bad {
+                acc.violate(&format!("{}/awkward-power", prop), idx, case.clone(), json!({"x": x, "p": p, "want_value": f0, "want_f1": f1, "want_f2": f2}), json!(format!("{:?} {:?} {:?}", r.real(), gr, hr)));
+            }
+        }
+    }
+}
+
 pub fn explore_large(prop: &str, second: bool) -> (Acc, Value) {
     let mut acc = Acc::new();
     let mut n = 0u64;
@@ -245,5 +314,10 @@ pub fn explore_large(prop: &str, second: bool) -> (Acc, Value) {
         awkward_unary(which, second, prop, case, n, &mut acc);
         n += 1;
     }
-    (acc, json!({"sizes": LARGE_SIZES, "stored_orders": 3, "functions": 10, "awkward_magnitudes": AWKWARD}))
+    for which in 0..POWERS.len() {
+        let case = json!({"expr": {"Leaf": 0}, "large": [which, 201]});
+        awkward_power(which, second, prop, case, n, &mut acc);
+        n += 1;
+    }
+    (acc, json!({"sizes": LARGE_SIZES, "stored_orders": 3, "functions": 10, "awkward_magnitudes": AWKWARD, "unusual_powers": POWERS.len()}))
 }
